@@ -266,7 +266,35 @@ def _work(args):
                                 if not acc:
                                     out.append(("sound", text, "%s %s: witness %r with locks (%r, %r) does not make the script "
                                                                "succeed (%s)" % (mode, desc, w, al, rl, why)))
-                                elif not mall:
+                                if acc:
+                                    # the reported locks are necessary: one less (or none) and the same witness fails;
+                                    # when no lock is reported the witness needs none
+                                    if al is not None:
+                                        a3, _, _ = X.execute(sc, w, X.Tx(lock_time=al - 1, sequence=tx.sequence), ctx)
+                                        a4, _, _ = X.execute(sc, w, X.Tx(lock_time=(al + 500000000) if al < 500000000 else 1,
+                                                                       sequence=tx.sequence), ctx)
+                                        if a3 or a4:
+                                            out.append(("locks", text, "%s %s: the template reports the absolute lock %r but its witness "
+                                                                       "%r also validates with %s" % (mode, desc, al, w, "a smaller "
+                                                                       "nLockTime" if a3 else "the other unit")))
+                                    else:
+                                        a3, _, _ = X.execute(sc, w, X.Tx(lock_time=0, sequence=tx.sequence), ctx)
+                                        if not a3:
+                                            out.append(("locks", text, "%s %s: the template reports no absolute lock but its witness %r "
+                                                                       "fails with nLockTime 0" % (mode, desc, w)))
+                                    if rl is not None:
+                                        a5, _, _ = X.execute(sc, w, X.Tx(lock_time=tx.lock_time, sequence=rl - 1), ctx)
+                                        a6, _, _ = X.execute(sc, w, X.Tx(lock_time=tx.lock_time, sequence=rl ^ (1 << 22)), ctx)
+                                        if a5 or a6:
+                                            out.append(("locks", text, "%s %s: the template reports the relative lock %r but its witness "
+                                                                       "%r also validates with %s" % (mode, desc, rl, w, "a smaller "
+                                                                       "nSequence" if a5 else "the other unit")))
+                                    else:
+                                        a5, _, _ = X.execute(sc, w, X.Tx(lock_time=tx.lock_time, sequence=0xffffffff if al is None else 0xfffffffe), ctx)
+                                        if not a5:
+                                            out.append(("locks", text, "%s %s: the template reports no relative lock but its witness %r "
+                                                                       "fails with a final nSequence" % (mode, desc, w)))
+                                if acc and not mall:
                                     tx2 = X.Tx(tx.lock_time, tx.sequence)
                                     tx2.minimalif = True
                                     tx2.nullfail = True
